@@ -75,7 +75,7 @@ def plan_C01(tier):
     qs = []
     if tier == "quick":
         base_ns, Ds = range(0, 7), (1, 2)
-        single_ns, heavy_ns = (6,), (4,)
+        single_ns, heavy_ns = (4,), (3,)
     else:
         base_ns, Ds = range(0, 13), (1, 2, 3)
         single_ns, heavy_ns = (4, 8, 12), (4, 8)
@@ -90,7 +90,7 @@ def plan_C01(tier):
     for fn in range(1, 16):
         heavy = fn in (7, 8, 9, 10, 11, 12)
         for n in (heavy_ns if heavy else single_ns):
-            for D in Ds if tier != "quick" else (2,):
+            for D in Ds if tier != "quick" else ((1,) if heavy else (2,)):
                 if FN_COST[fn] == 0 and n != (heavy_ns if heavy else single_ns)[0]:
                     continue
                 qs.append(step_query(1, fn, n, D))
@@ -238,9 +238,9 @@ def token_nodes():
     for v in vals:
         out.append((1, Node("O", [Node(v)], [1])))
         out.append((2, Node("A", [Node(v)], [])))
-    # nested position + sibling after
-    out.append((1, Node("O", [Node("O", [Node("I2")], [0]), Node("I4")], [0, 1])))
-    out.append((2, Node("A", [Node("A", [Node("I8")], []), Node("S2")], [])))
+    # nested position (an integer as the LAST value: a non-minimal integer makes every later position symbolic)
+    out.append((1, Node("O", [Node("T"), Node("O", [Node("I4")], [0])], [0, 1])))
+    out.append((2, Node("A", [Node("S2"), Node("A", [Node("I8")], [])], [])))
     return out
 
 
@@ -462,8 +462,8 @@ def plan_C07(tier):
     scripts = [["GO", "F"], ["GO", "F", "F"], ["GO", "F", "N"], ["GO", "N", "F"], ["GO", "FS"], ["GO", "FE"], ["GO", "NE"]]
     shapes_l = lookup_shapes()
     if tier == "quick":
-        scripts = scripts[:4] + [["GO", "FE"]]
-        shapes_l = [shapes_l[i] for i in (0, 1, 3, 6, 7)]
+        scripts = [["GO", "F"], ["GO", "F", "F"], ["GO", "F", "N"], ["GO", "FE"]]
+        shapes_l = [shapes_l[i] for i in (0, 3, 6)]
     else:
         scripts += [["GO", "F", "F", "F"], ["GO", "F", "GO", "LO", "F"], ["GO", "F", "GA", "LA", "F"], ["GO", "F", "RAW", "F"], ["GO", "FS", "FS"],
                     ["GO", "FE", "F"], ["GO", "F", "F", "N"]]
@@ -472,7 +472,7 @@ def plan_C07(tier):
             qs.append(shape_script_query(7, node, s, "lookup", 1, tight=True, timeout=1500))
     # arbitrary valid objects, symbolic names
     if tier == "quick":
-        qs.append(script_query(7, ["GO", "F", "F"], 8, 1, 1, J=4))
+        qs.append(script_query(7, ["GO", "F"], 8, 1, 1, J=4))
     else:
         for s, n, D, J in [(["GO", "F", "F"], 8, 1, 4), (["GO", "F", "F"], 10, 1, 4), (["GO", "F", "N"], 8, 2, 5), (["GO", "F", "F", "F"], 8, 1, 4),
                            (["GO", "N", "F"], 8, 2, 5), (["GO", "F", "GO"], 8, 2, 5), (["GO", "FE", "F"], 8, 1, 4)]:
@@ -495,7 +495,7 @@ def mutation_queries(prop, tier):
     from . import shapes
     qs = []
     for root in (1, 2):
-        T = (5 if root == 2 else 6) if tier == "quick" else (6 if root == 2 else 7)
+        T = (3 if root == 2 else 4) if tier == "quick" else (5 if root == 2 else 6)
         for node in shapes.gen_shapes(root, T, ("T", "S1"), 3):
             b, m = shapes.skeleton(node)
             tags = [("full", shapes.full_script(node))]
@@ -538,6 +538,8 @@ def payload_queries(prop, tier):
     for root, node in nodes:
         for tag, s in shapes.variant_scripts(node):
             kind = tag.split("@")[0]
+            if tier == "quick" and tag not in ("skip", "leave@0", "full"):
+                continue
             b, m = shapes.skeleton(node)
             n = len(b)
             D = max(2, node.depth_obj() + (1 if root == 2 else 0))
@@ -557,10 +559,10 @@ def plan_C08(tier):
     qs = []
     # arbitrary bytes, parser-driven scripts that end by leaving the root
     if tier == "quick":
-        for n in (2, 3, 4, 5, 6):
+        for n in (2, 3, 4, 5):
             qs.append(script_query(8, ["GO", "LO"], n, 2, 1, mode=2))
             qs.append(script_query(8, ["GA", "LA"], n, 2, 2, mode=2))
-        more = [(["GA", "N", "LA"], 5, 2), (["GO", "N", "LO"], 6, 1), (["GA", "N", "N", "LA"], 4, 2)]
+        more = [(["GA", "N", "LA"], 4, 2), (["GO", "N", "LO"], 5, 1)]
     else:
         for n in range(2, 11):
             qs.append(script_query(8, ["GO", "LO"], n, 2, 1, mode=2))
@@ -797,8 +799,17 @@ def print_shapes(tier):
 
 def plan_C13(tier):
     qs = []
-    for root, node in print_shapes(tier):
-        qs.append(shape_print_query(13, 1, node, root, tcap=40))
+    from . import shapes
+    c13 = []
+    for root in (1, 2):
+        T = (5 if root == 1 else 4) if tier == "quick" else (7 if root == 1 else 6)
+        for node in shapes.gen_shapes(root, T, ("T", "B1"), 3):
+            c13.append((root, node))
+    toks = token_nodes()
+    if tier == "quick":
+        toks = [(r, n) for r, n in toks if n.children[0].kind in ("I8", "D", "S2", "B2", "I1") and r == 2]
+    for root, node in c13 + toks:
+        qs.append(shape_print_query(13, 1, node, root, tcap=40, timeout=1500))
     ns = (2, 5, 6) if tier == "quick" else (2, 5, 6, 7, 8)
     for n in ns:
         for root in (1, 2):
